@@ -929,7 +929,8 @@ def _unique_inds(ar):
         Original function only returns index of first occurrence of unique value
 
     """
-    ar = np.asanyarray(ar).flatten()
+    orig = np.asanyarray(ar).flatten()
+    ar = orig.copy()
     ar.sort()
     aux = ar
 
@@ -937,7 +938,9 @@ def _unique_inds(ar):
     mask[:1] = True
     mask[1:] = aux[1:] != aux[:-1]
 
-    ar_inds = [np.where(ar == ii)[0] for ii in ar[mask]]
+    # Occurrences are looked up in the original (unsorted) array so that the
+    # returned indices are positions in the input, not in the sorted copy
+    ar_inds = [np.where(orig == ii)[0] for ii in ar[mask]]
 
     return ar[mask], ar_inds
 
